@@ -143,8 +143,7 @@ def run(ctx):
             nsit = sum(1 for r in doc.recs if r.node.usage == 'S' or any(l.usage == 'S' for (l, i) in r.chain))
             if len(doc.recs) >= 10 and nsit >= 1:
                 sigs.add('%08x' % zlib.crc32(doc.text().encode('utf-8', 'replace')))
-            if k == 1 and ctx.mine(label) and len(doc.recs) < 60:
-                ctx.case(n=0, sample={'map': label, 'params': kw, 'text': doc.text()[:1500]})
+            ctx.sample({'map': label, 'params': kw, 'segments': len(doc.recs), 'text_head': doc.text()[:1200]})
     # pinned witnesses for the listed findings: deterministic seeds, independent of VERIF_SEED
     if ctx.shard == 0:
         for e in entries:
